@@ -56,6 +56,8 @@ type GenesisConfig struct {
 	Exported bool
 	// Tombstoned: keys without a validator record whose signing info (tombstoned) is part of the genesis state
 	Tombstoned []*Actor
+	// OmitSupply: the auth genesis states no supply (InitGenesis computes it from the accounts)
+	OmitSupply bool
 	// OmitInnerAddr: signing-info records of the genesis state do not repeat the address their map key already gives
 	OmitInnerAddr bool
 }
@@ -105,6 +107,9 @@ func (g GenesisConfig) AppState() []byte {
 	supply := sdk.NewCoins(sdk.NewCoin(Denom, sdk.NewIntFromBigInt(total)))
 	if extra > 0 {
 		supply = supply.Add(sdk.NewCoins(sdk.NewInt64Coin(SecondDenom, extra)))
+	}
+	if g.OmitSupply {
+		supply = nil
 	}
 	ags := authTypes.GenesisState{Params: g.AuthParams, Accounts: accs, Supply: supply}
 	pgs := posTypes.DefaultGenesisState()
